@@ -22,6 +22,13 @@ def run(tier, seed):
         raise vlib.Infra(f"liveness property violated in the ideal model: {mc.violated}\n{mc.out[-2000:]}")
     states += mc.distinct
     trans += mc.generated
+    try:
+        dv = vlib.tlc("Liveness", "MC_Liveness_live_dev.cfg", workers=4, timeout=900)
+        refuted = not dv.ok
+    except vlib.Infra as ex:
+        refuted = "Temporal propert" in str(ex)
+    if not refuted:
+        raise vlib.Infra("the deviation NoLoginDeadline is not refuted by Heals: the property is vacuous for pending logins")
     v.add_cov(states=states, transitions=trans, exhaustive=True)
     d = vlib.scratch("c14-")
     stats = {}
